@@ -312,6 +312,13 @@ func c09Witnesses(r *Rec) {
 	if len(obs) == 1 && !obs[0].accepted {
 		r.Count("witness:max-2^63-rejects-everything")
 	}
+	r.Mark("witness C09.accept_wraparound_bounds_counterexample: MinTxFee 2^63+1, MaxTxFee 2^64-1, execution fee 2^63, a fee token with rate -1")
+	h.block(func(ctx sdk.Context) {
+		h.apply(ctx, cfgSpec{setProps: true, min: 1<<63 + 1, max: 1<<64 - 1, foreign: true, bl: true, wl: false, poorMax: 1000000, minVal: 1,
+			toks: []tokSpec{{denom: "tka", rate: "-1", feeOn: true}},
+			exec: []govtypes.ExecutionFee{{TransactionType: "send", ExecutionFee: 1 << 63, FailureFee: 1, Timeout: 10}}})
+	}, nil, false)
+	h.block(nil, []txCase{{msgs: []aMsg{h.mkSend(4, 5, ukex(5))}, payer: 4, fee: sdk.NewCoins(sdk.NewInt64Coin("tka", 807)), tag: "witness"}}, true)
 }
 
 // L1: feeprocessing keeper — payment history, execution records, ProcessExecutionFeeReturn
